@@ -372,24 +372,30 @@ func (t *transpiler) charClass(node *ast.CharClassNode) {
 
 		internalNodes = append(internalNodes, element)
 	}
+	// when every element is split out there is no bracket expression left:
+	// an empty `[]` would make Go read the following `|[^...]` as part of the class
+	onlySplitNodes := len(nodesToSplit) > 0 && len(internalNodes) == 0
 	if len(nodesToSplit) > 0 {
-		t.Buffer.WriteString(`(?:[`)
-	} else {
+		t.Buffer.WriteString(`(?:`)
+	}
+	if !onlySplitNodes {
 		t.Buffer.WriteRune('[')
-	}
-	if node.Negated {
-		t.Buffer.WriteRune('^')
-	}
+		if node.Negated {
+			t.Buffer.WriteRune('^')
+		}
 
-	for _, element := range internalNodes {
-		t.charClassElement(element)
-	}
+		for _, element := range internalNodes {
+			t.charClassElement(element)
+		}
 
-	t.Buffer.WriteRune(']')
+		t.Buffer.WriteRune(']')
+	}
 	t.Mode = topLevelMode
 	if len(nodesToSplit) > 0 {
-		for _, element := range nodesToSplit {
-			t.Buffer.WriteRune('|')
+		for i, element := range nodesToSplit {
+			if i > 0 || !onlySplitNodes {
+				t.Buffer.WriteRune('|')
+			}
 			t.charClassElement(element)
 		}
 		t.Buffer.WriteRune(')')
